@@ -4,7 +4,8 @@
 
   Mirrors, in /repo:
     fcapy/ml/decision_lattice.py
-      `_parse_dt_arrays_to_drules`          → `parentOf`, `isLeftChild`, `accumulate`, `parseLoop`, `parse`
+      `_parse_dt_arrays_to_drules`          → `parentOf`, `isLeftChild`, `directDescr`, `accumulate`, `parseLoop`, `parse`
+                                               (`right_from` = the parameter `nxt`; `nxtEps`, `nxtOfList`)
       `DecisionLatticeRegressor.from_decision_tree` → `conceptFromDescr`, `fromDecisionTree`
       `predict` (SUMDIFF) / `_sum_difference_predictions` → `predict`, `sumDiff`
       `__imul__`, `__mul__`, `__itruediv__`, `__truediv__` → `imul`, `mul`, `truediv`
@@ -150,9 +151,20 @@ def parentOf (t : Tree) (k : Nat) : Option Nat :=
 /-- `node_i in parents_dict_left` -/
 def isLeftChild (t : Tree) (k : Nat) : Bool := (dictLast t.left k).isSome
 
-/-- the new condition a node adds to its parent's premise -/
-def directDescr (t : Tree) (eps : Rat) (k : Nat) (thr : Rat) : Descr :=
-  if isLeftChild t k then .ivl .ninf (.fin thr) else .ivl (.fin (thr + eps)) .pinf
+/-- `right_from = np.nextafter(threshold[parent_i], np.inf) if eps is None else threshold[parent_i] + eps`:
+    the model takes the map `thr ↦ right_from` as a parameter `nxt : Rat → Rat`.  In the default mode of the code
+    (`eps=None`) it is the successor on the float64 grid; `nxtEps eps` is the explicit-`eps` mode. -/
+def nxtEps (eps : Rat) : Rat → Rat := fun thr => thr + eps
+
+/-- a successor map given as a finite table `thr ↦ nxt thr` (what the driver receives: the harness evaluates
+    `np.nextafter(thr, inf)` — or `thr + eps` in float arithmetic — for every threshold of the tree and sends both
+    numbers as exact rationals); a threshold missing from the table is mapped to itself, which `wellFormed` rejects -/
+def nxtOfList (tbl : List (Rat × Rat)) : Rat → Rat := fun thr => (tbl.lookup thr).getD thr
+
+/-- the new condition a node adds to its parent's premise:
+    `descr = (-np.inf, threshold[parent_i]) if is_left_child else (right_from, np.inf)` -/
+def directDescr (t : Tree) (nxt : Rat → Rat) (k : Nat) (thr : Rat) : Descr :=
+  if isLeftChild t k then .ivl .ninf (.fin thr) else .ivl (.fin (nxt thr)) .pinf
 
 /-- `premise[ps_i] = v` on an insertion-ordered dict -/
 def premSet : Prem → Int → Descr → Prem
@@ -177,7 +189,7 @@ def accumulate (m : Nat) (descr : Descr) : (parentItems : Prem) → (premise : P
     | none => accumulate m descr rest (premSet premise j pd)
 
 /-- body of `for node_i in range(1, n_rules)`; `dps`/`ps` are `direct_premises`/`premises` so far -/
-def parseLoop (t : Tree) (m : Nat) (eps : Rat) :
+def parseLoop (t : Tree) (m : Nat) (nxt : Rat → Rat) :
     List Nat → List Prem → List Prem → Except PyErr (List Prem × List Prem)
   | [], dps, ps => .ok (dps, ps)
   | k :: rest, dps, ps =>
@@ -186,10 +198,10 @@ def parseLoop (t : Tree) (m : Nat) (eps : Rat) :
     | some p =>
       match t.threshold[p]?, t.feature[p]?, ps[p]? with
       | some thr, some f, some ppre =>
-        let descr := directDescr t eps k thr
+        let descr := directDescr t nxt k thr
         match accumulate m descr ppre [(f, descr)] with
         | .error e => .error e
-        | .ok premise => parseLoop t m eps rest (dps ++ [[(f, descr)]]) (ps ++ [premise])
+        | .ok premise => parseLoop t m nxt rest (dps ++ [[(f, descr)]]) (ps ++ [premise])
       | _, _, _ => .error .IndexError
 
 /-- `[parents_dict[node_i] for node_i in range(1, n_rules)]` -/
@@ -224,11 +236,11 @@ structure Rules where
 
 def nodes1 (t : Tree) : List Nat := (List.range t.n).drop 1
 
-def parse (t : Tree) (m : Nat) (eps : Rat) : Except PyErr Rules :=
+def parse (t : Tree) (m : Nat) (nxt : Rat → Rat) : Except PyErr Rules :=
   match parentsList t (nodes1 t) with
   | .error e => .error e
   | .ok pl =>
-    match parseLoop t m eps (nodes1 t) [[]] [[]] with
+    match parseLoop t m nxt (nodes1 t) [[]] [[]] with
     | .error e => .error e
     | .ok (dps, ps) =>
       match deltas t.value (nodes1 t) pl with
@@ -320,9 +332,10 @@ def mkDecisions : Nat → List (Option Nat) → List Prem → List Rat → List 
   | i, p :: ps, dp :: dps, dy :: dys => (⟨p, i, dp⟩, dy) :: mkDecisions (i + 1) ps dps dys
   | _, _, _, _ => []
 
-/-- `DecisionLatticeRegressor.from_decision_tree(dtree, context)`; `eps = 1e-9` in the code -/
-def fromDecisionTree (t : Tree) (X : Rows) (m : Nat) (eps : Rat) : Except PyErr DLat :=
-  match parse t m eps with
+/-- `DecisionLatticeRegressor.from_decision_tree(dtree, context)`; the code calls the parser with its default
+    `eps=None`, i.e. `nxt` = successor on the float64 grid -/
+def fromDecisionTree (t : Tree) (X : Rows) (m : Nat) (nxt : Rat → Rat) : Except PyErr DLat :=
+  match parse t m nxt with
   | .error e => .error e
   | .ok r =>
     match conceptsFrom X m r.premises with
@@ -580,27 +593,37 @@ def treePredict (t : Tree) (x : List Rat) : Rat := t.value.getD (descend t x t.n
 def isLeaf (t : Tree) (i : Nat) : Bool := t.left[i]? == some (-1)
 
 /-- one node of the arrays: a leaf (both children `-1`) or an internal node whose children come later, differ, whose
-    feature is a column, whose threshold separates every row's value by at least `eps`, and whose children
-    are recovered by the parent dictionaries as (this node, left) and (this node, right) -/
-def wfNode (t : Tree) (X : Rows) (m : Nat) (eps : Rat) (i : Nat) : Bool :=
+    feature is a column, whose threshold `thr` lies strictly below its successor `nxt thr`, with no row value of the
+    split feature strictly between the two (`v ≤ thr ∨ nxt thr ≤ v`), and whose children are recovered by the
+    parent dictionaries as (this node, left) and (this node, right) -/
+def wfNode (t : Tree) (X : Rows) (m : Nat) (nxt : Rat → Rat) (i : Nat) : Bool :=
   match t.left[i]?, t.right[i]?, t.feature[i]?, t.threshold[i]? with
   | some l, some r, some f, some thr =>
     (l == -1 && r == -1) ||
     (decide ((i : Int) < l) && decide (l < (t.n : Int)) && decide ((i : Int) < r) && decide (r < (t.n : Int))
       && l != r && decide (0 ≤ f) && decide (f < (m : Int))
-      && X.all (fun row => decide (row.getD f.toNat 0 ≤ thr) || decide (thr + eps ≤ row.getD f.toNat 0))
+      && (decide (thr < nxt thr)
+          && X.all (fun row => decide (row.getD f.toNat 0 ≤ thr) || decide (nxt thr ≤ row.getD f.toNat 0)))
       && parentOf t l.toNat == some i && isLeftChild t l.toNat
       && parentOf t r.toNat == some i && !isLeftChild t r.toNat)
   | _, _, _, _ => false
 
 /-- Binary tree in sklearn's array form, children after parents, every non-root node the child of
-    exactly one (parent, side); features in range; thresholds separate the data by at least `eps`. -/
-def wellFormed (t : Tree) (X : Rows) (m : Nat) (eps : Rat) : Bool :=
+    exactly one (parent, side); features in range; and the hypothesis about the number grid: for every threshold
+    `thr` used by an internal node, `thr < nxt thr` and every row value `v` of the split feature has
+    `v ≤ thr ∨ nxt thr ≤ v` (the two child premises `(-∞, thr]`, `[nxt thr, ∞)` are complementary on the data).
+
+    For IEEE doubles and `nxt = np.nextafter(·, inf)` (the code's default mode) this holds for EVERY finite
+    float64 value `v` and every finite threshold below the largest double: there is no double strictly between `thr`
+    and `nextafter(thr)`.  So the hypothesis is met by all float64 tables — including objects the tree never saw
+    (out-of-bag objects of forest members) and data one ulp away from a threshold — not just by data that is
+    separated from the thresholds by some margin.  In the explicit-`eps` mode (`nxt = nxtEps eps`) it is the old
+    hypothesis "`0 < eps` and the thresholds separate the data by at least `eps`". -/
+def wellFormed (t : Tree) (X : Rows) (m : Nat) (nxt : Rat → Rat) : Bool :=
   decide (0 < t.n) && decide (t.left.length = t.n) && decide (t.right.length = t.n)
   && decide (t.feature.length = t.n) && decide (t.threshold.length = t.n)
-  && decide (0 < eps)
   && X.all (fun r => decide (r.length = m))
-  && (List.range t.n).all (fun i => wfNode t X m eps i)
+  && (List.range t.n).all (fun i => wfNode t X m nxt i)
   && ((List.range t.n).drop 1).all (fun k =>
       ((t.left ++ t.right).filter (fun c => c == (k : Int))).length == 1)
 
